@@ -74,6 +74,30 @@ Theorem C05_get_tx_sound :
 Proof. intros; eapply inv_get_tx_sound; eauto. Qed.
 Print Assumptions C05_get_tx_sound.
 
+(** findAncestor (the syncer's ancestor search) returns a listed block that is on the main chain, and
+    finds one whenever a listed hash names a main-chain block. *)
+Theorem C05_find_ancestor_sound :
+  forall (apply : sroot -> block -> option sroot) (spent : sroot -> txid -> bool),
+  (forall r b r', apply r b = Some r' -> NoDup (txs b) /\ forall t, In t (txs b) -> spent r t = false) ->
+  (forall r b r' t, apply r b = Some r' -> spent r' t = spent r t || mem t (txs b)) ->
+  forall (U : block -> Prop), (forall a b, U a -> U b -> hash_field a = hash_field b -> a = b) ->
+  forall (g : block),
+  forall n hs b, Inv apply spent U g n -> find_ancestor (dur n) hs = Some b ->
+  In (hash_field b) hs /\ no b <= no (best n) /\ mainb (dur n) (no b) = Some b.
+Proof. intros; eapply find_ancestor_sound; eauto. Qed.
+Print Assumptions C05_find_ancestor_sound.
+
+Theorem C05_find_ancestor_complete :
+  forall (apply : sroot -> block -> option sroot) (spent : sroot -> txid -> bool),
+  (forall r b r', apply r b = Some r' -> NoDup (txs b) /\ forall t, In t (txs b) -> spent r t = false) ->
+  (forall r b r' t, apply r b = Some r' -> spent r' t = spent r t || mem t (txs b)) ->
+  forall (U : block -> Prop), (forall a b, U a -> U b -> hash_field a = hash_field b -> a = b) ->
+  forall (g : block),
+  forall n hs k b, Inv apply spent U g n -> k <= no (best n) -> mainb (dur n) k = Some b -> In (hash_field b) hs ->
+  exists a, find_ancestor (dur n) hs = Some a.
+Proof. intros; eapply find_ancestor_complete; eauto. Qed.
+Print Assumptions C05_find_ancestor_complete.
+
 (** With the BlockNo-0 repair (fixes/F27_blockno_zero.diff, [f27 = true]) no hypothesis on the block
     number is needed: the invariant holds after every history of blocks of U. *)
 Theorem C05_history_inv_repaired :
